@@ -98,7 +98,9 @@ def build(name, extra_src=None, quiet=True):
                     old = False
                 if old:  # never remove a directory another process may still be compiling into
                     shutil.rmtree(os.path.join(BUILD, e), ignore_errors=True)
-        cmd = [cc] + COMMON + flags + ["-I", REPO, "-I", os.path.join(REPO, "src"), "-I", SHIM_DIR, "-I", os.path.join(REPO, "contrib"), "-I", os.path.join(REPO, "include"),
+        # undefined symbols must be a link error (not a dlopen surprise); the sanitizer runtime is resolved at load time
+        nodefs = [] if "-fsanitize=address,undefined" in flags else ["-Wl,-z,defs"]
+        cmd = [cc] + COMMON + flags + nodefs + ["-I", REPO, "-I", os.path.join(REPO, "src"), "-I", SHIM_DIR, "-I", os.path.join(REPO, "contrib"), "-I", os.path.join(REPO, "include"),
                                         os.path.join(SHIM_DIR, "shim.c"), "-o", so + ".tmp"]
         t0 = time.time()
         r = subprocess.run(cmd, capture_output=True, text=True)
